@@ -201,6 +201,10 @@ func (s *Shard) InsertPoints(points []models.Point) error {
 		mergedErrC := utils.MergeErrorsWithContext(ctx, indexQErrC, dispatchErrC)
 		// At this point concurrent stuff is over, we can check for errors
 		if err := <-mergedErrC; err != nil {
+			// Stop every stage and wait for them before the transaction is rolled back
+			cancel()
+			for range mergedErrC {
+			}
 			return fmt.Errorf("could not complete insert: %w", err)
 		}
 		// ---------------------------
@@ -310,6 +314,10 @@ func (s *Shard) UpdatePoints(points []models.Point) ([]uuid.UUID, error) {
 		mergedErrC := utils.MergeErrorsWithContext(ctx, indexQErrC, dispatchErrC)
 		// At this point concurrent stuff is over, we can check for errors
 		if err := <-mergedErrC; err != nil {
+			// Stop every stage and wait for them before the transaction is rolled back
+			cancel()
+			for range mergedErrC {
+			}
 			return fmt.Errorf("could not complete update: %w", err)
 		}
 		return nil
@@ -527,6 +535,10 @@ func (s *Shard) DeletePoints(deleteSet map[uuid.UUID]struct{}) ([]uuid.UUID, err
 		mergedErrC := utils.MergeErrorsWithContext(ctx, indexQErrC, dispatchErrC)
 		// At this point concurrent stuff is over, we can check for errors
 		if err := <-mergedErrC; err != nil {
+			// Stop every stage and wait for them before the transaction is rolled back
+			cancel()
+			for range mergedErrC {
+			}
 			return fmt.Errorf("could not complete insert: %w", err)
 		}
 		// ---------------------------
